@@ -27,6 +27,14 @@ FAMILIES = {
         "shard": 10, "procs": 8,
     },
 
+    "lin": {
+        "family": "lin",
+        "coq_modules": ["Json", "Crc", "Hlc", "Kv", "Store", "Trace", "Lin"],
+        "in_type": "unit", "obs_type": "list lkey",
+        "corr": "chk_lin", "chk": "chk_lin", "model": "(fun _ : unit => tt)", "chk_explain": "lin_explain",
+        "n": {"quick": 24, "thorough": 400},
+        "shard": 2, "procs": 4,
+    },
     "ttl": {
         "family": "ttl",
         "coq_modules": ["Json", "Crc", "Hlc", "Kv", "Store", "Trace", "Corr"],
@@ -59,9 +67,9 @@ KV_ASSUME = [
 ]
 
 
-def _kv(pid, text, model_chk=False):
+def _kv(pid, text, model_chk=False, extra=None):
     return {
-        "families": [{"family": "kv", "chk": "kv_chk_" + pid, "corr": "kv_corr_" + pid, "model_chk": model_chk}],
+        "families": [{"family": "kv", "chk": "kv_chk_" + pid, "corr": "kv_corr_" + pid, "model_chk": model_chk}] + (extra or []),
         "level_text": text,
         "level_note": KV_NOTE,
         "assumptions": KV_ASSUME,
@@ -70,7 +78,7 @@ def _kv(pid, text, model_chk=False):
 
 PROPS = {
     "C01": _kv("C01", "Full proof on the model: for every history (any collections, keys, entry points, arguments, clocks, size limits, purges, drops, expiry firings) every read answers from the current document, every failed/refused call leaves the document's complete view unchanged, and every successful write is what the next read-back shows (C01_holds, by a per-call theorem over all entry points and document states lifted by induction over histories). Tied to the code by differential execution of generated histories with full read-back after every step."),
-    "C02": _kv("C02", "Sequential part proved in full on the model: a conditional write (every entry point that carries an expected CAS) that succeeds had an expected CAS equal to the document's current CAS (0 = no document; for WriteCas no live document), and one that fails changes nothing (C02_holds, all histories). The two-writer race is covered by the concurrency model of C03 (scheduled executions through the subdoc window)."),
+    "C02": _kv("C02", "Sequential part proved in full on the model: a conditional write (every entry point that carries an expected CAS) that succeeds had an expected CAS equal to the document's current CAS (0 = no document; for WriteCas no live document), and one that fails changes nothing (C02_holds, all histories). The two-writer race: for every schedule of the conditional-write loop a successful write was made on the CAS it read (Conc.v, C03); on the code, the lin family's certificate check includes the one-winner rule (no two successful conditional writes carry the same expected CAS) under real goroutine races, WithMeta writers included.", extra=[{"family": "lin"}]),
     "C05": _kv("C05", "Full proof on the model: in every reachable store the tombstone column equals 'value IS NULL' (C05_flag_iff_nobody), and every history is accepted by the checker: deletion opcode iff no body, Delete/Remove keep exactly the system xattrs and clear the expiry, a body write onto a body-less key leaves only the supplied xattrs (C05_holds); PurgeTombstones removes exactly the body-less rows (C05_purge, on the store; its trace-level check is validated on model traces by evaluation).", model_chk=True),
     "C06": _kv("C06", "Full proof on the model: for every history an insert-style write (Add, AddRaw, WriteCas AddOnly / cas 0, WriteResurrectionWithXattrs) succeeds only on a key without a body and a refusal happens only on a key with a body and leaves it untouched; WriteWithXattrs cas 0 succeeds only on an absent key (C06_holds)."),
     "C07": _kv("C07", "Full proof on the model: an xattr-only write changes exactly the named xattrs and keeps body, datatype and (unless given) expiry; a body-only write to a live document keeps its xattrs; a failed call changes nothing (C07_holds; frame lemmas over apply_xattrs / xattrs_remove for all xattr maps and name lists). Macro expansion values are compared exactly by the correspondence (CAS string and CRC32c computed in Coq)."),
@@ -93,6 +101,12 @@ PROPS = {
     "C19": _kv("C19", "Proved on the model's store, for every reachable store: the $_keyspace sub-query of a collection ranges over exactly the documents of that collection that have a body, with their current id, body and xattrs (C19_keyspace_is_live_docs), each once (C19_each_once); ORDER BY neither drops nor invents rows. A family of eight statements (ids, hex bodies, count, id filter, body-property filter, xattr-property filter, xattr projection, DESC/LIMIT) is evaluated in the model and compared exactly, row text for row text, with Collection.Query on in-memory (pre-recorded iterator) and on-disk (streaming iterator) buckets after arbitrary histories over three collections; the trace checker re-evaluates each query over the key-value read-back of the collection (acceptance of model traces checked by evaluation). SQLite's evaluator (json_valid, ->>, hex, ORDER BY, LIMIT) is modelled by eval_query, not verified.", model_chk=True),
     "C12": _kv("C12", "Model of views.go/designdoc.go in Store.v: design documents, views.lastCas vs the collection's lastCas, incremental updateView (delete rows of documents with cas > views.lastCas, re-map them), cascade on purge/drop, JSON collation, startkey/endkey/inclusive_end/key/limit/descending, four JavaScript map functions with Gallina twins. The executable checker states the property directly - a non-stale query equals the map function applied to the key-value read-back of the collection's current documents, collated and filtered - and is evaluated on implementation traces and on the model's traces (PROOF STATUS: acceptance of model traces is checked by evaluation on every run; the invariant proof 'every document is correctly indexed or pending re-mapping' is in progress, see DESIGN.md). View queries are placed anywhere in histories with deletes, resurrections, xattr-only writes, purges, WithMeta writes, design-document replacement through another handle, collection drop and reopen; results are compared exactly with the model. otto (JavaScript), SQLite's ORDER BY with the JSON collation and sg-bucket's ProcessParsed are modelled, not verified; reduce/group and keys=[...] are outside the modelled subset.", model_chk=True),
     "C17": _kv("C17", "Full proof on the model: every successful mutation through any entry point raises the key's revision number by exactly one (1 on creation or re-creation after purge), failed calls leave it, and live events carry the stored number (C17_holds, all histories)."),
+    "C03": {
+        "families": [{"family": "lin"}],
+        "level_text": "Partial. Proved (Conc.v) for every number of threads, every list of updates per thread and every schedule: the read / compute / conditional-write loop that Update, WriteUpdateWithXattrs and the sub-document writes implement loses no update and applies none twice, and a successful write extends exactly the version its callback was shown (C03_no_lost_update, C03_write_on_shown_version, invariant over all reachable configurations). Single-transaction calls (Incr included) are one atomic step of the sequential model. The tie to the code is a Coq-checked linearization certificate: goroutines on 1-3 handles (in-memory and on-disk) run Incr, Get, GetWithXattrs, Remove, Update, WriteCas, WriteUpdateWithXattrs and SetWithMeta against shared keys; the live feed's events sorted by CAS are the claimed order; Lin.v replays that order through the sequential model Kv.kstep and requires every version, every response, every read (no torn body/xattrs), every failed call and the real-time order to be explained, and the callback's shown CAS to be the predecessor's.",
+        "level_note": "Assumes inTransaction is atomic and isolated and that a SELECT outside the mutex sees a committed snapshot (SQLite WAL / the single in-memory connection): the certificate check is what watches this. Stress-based: schedules are those the Go scheduler produces in this run (testing strength for the code, proof strength for the loop model). Trusted: Coq kernel + vm_compute, Go harness.",
+        "assumptions": ["each single-transaction call is atomic (bucket.mutex + SQLite transaction)", "reads outside the mutex see a committed snapshot", "the live feed delivers every posted event (checked: one event per acknowledged mutation)"],
+    },
     "C04": {
         "families": [{"family": "c04"}],
         "level_text": "Full proof on the model: for every list of clock readings, buckets, failed calls, closes, restarts and reopens the issued CAS values are strictly increasing process-wide and per bucket across restarts (C04_holds, by invariant over all operation lists; uint64 no-wrap side condition proved). The model is tied to hlc.go/collection.go by exact comparison of every CAS the implementation stamps under scripted clocks.",
